@@ -22,12 +22,12 @@ Definition ex_ok_tree : prog :=
               (PCons (PLeaf LText 11 13) PNil)))) PNil)
         TNil)).
 
-Lemma ex_ok : prog_ok ex_ok_line ex_ok_tree = 0 /\
-  highlight ex_ok_line 23 ex_ok_tree =
+Lemma ex_ok : prog_ok ex_ok_line ex_ok_tree = 0 /\ forall clamp,
+  highlight_gen clamp ex_ok_line 23 ex_ok_tree =
     Some [(0, 4, KBuiltin); (4, 5, KComment); (5, 6, KQuoted); (6, 8, KQuoted); (8, 10, KCmdSubst);
           (10, 12, KExternal); (12, 13, KCmdSubst); (13, 15, KDefault); (15, 16, KCmdSubst);
           (16, 18, KQuoted); (18, 19, KQuoted); (19, 23, KQuoted)].
-Proof. split; vm_compute; reflexivity. Qed.
+Proof. split; [vm_compute; reflexivity | intros [|]; vm_compute; reflexivity]. Qed.
 
 (** cat <<EOF / body / EOF : the tokenizer emits the here-doc body and end tag before the
     newline operator that precedes them in the line; the builder then overlaps. *)
@@ -37,11 +37,19 @@ Definition ex_heredoc_tree : prog :=
         (TWord 19 19 (fl "0000000") PNil (TOp 9 10 TNil)))))).
 
 Lemma ex_heredoc : prog_ok ex_heredoc_line ex_heredoc_tree = 1 /\
-  exists sp, highlight ex_heredoc_line 0 ex_heredoc_tree = Some sp /\ ~ spec ex_heredoc_line sp.
+  exists sp, highlight_gen false ex_heredoc_line 0 ex_heredoc_tree = Some sp /\ ~ spec ex_heredoc_line sp.
 Proof.
   split; [vm_compute; reflexivity|]. eexists. split; [vm_compute; reflexivity|].
   intros H. apply spec_code_correct in H. vm_compute in H. discriminate.
 Qed.
+
+(** the same input through the clamped form of append_span *)
+Lemma ex_heredoc_clamped :
+  calls_aligned ex_heredoc_line (prog_calls 0 ex_heredoc_line 0 ex_heredoc_tree) = true /\
+  highlight_gen true ex_heredoc_line 0 ex_heredoc_tree =
+    Some [(0, 3, KUnknown); (3, 4, KComment); (4, 6, KOperator); (6, 9, KDefault); (9, 10, KComment);
+          (10, 19, KDefault)].
+Proof. split; vm_compute; reflexivity. Qed.
 
 (** echo `\`é` : word.rs unescapes \` inside backquotes, so the nested command text "`é" is one
     byte shorter than its source and its end lands inside é: append_span's debug assertion fails *)
@@ -50,5 +58,6 @@ Definition ex_bq_tree : prog :=
   GToks (text_word 0 4 "0000110" 4
         (TWord 5 10 (fl "0000000") (PCons (PCmd true 0 6 (lit "`" ++ [233%N]) GErr) PNil) TNil)).
 
-Lemma ex_bq : prog_ok ex_bq_line ex_bq_tree = 4 /\ highlight ex_bq_line 0 ex_bq_tree = None.
-Proof. split; vm_compute; reflexivity. Qed.
+Lemma ex_bq : prog_ok ex_bq_line ex_bq_tree = 4 /\
+  forall clamp, highlight_gen clamp ex_bq_line 0 ex_bq_tree = None.
+Proof. split; [vm_compute; reflexivity | intros [|]; vm_compute; reflexivity]. Qed.
